@@ -33,9 +33,11 @@ Definition check_cp (rt : float) (c : cp_case) : list nat :=
 
 (* squared covariance fractions of an MCA fit: the residual formula of the source (Cpcca.scf_modes) against squared_covariance_fraction() *)
 Record scf_case := mkSC { sc_n : nat; sc_p1 : nat; sc_p2 : nat; sc_k : nat; sc_X : list (list F); sc_Y : list (list F);
-  sc_Q1 : list (list F); sc_Q2 : list (list F); sc_tsc : F; sc_scf : list F }.
+  sc_Q1 : list (list F); sc_Q2 : list (list F); sc_tsc : F; sc_scf : list F; sc_fvex : list F; sc_fvey : list F }.
 Definition check_scf (rt : float) (c : scf_case) : bool :=
-  vcl cl rt rt (scf_modes K (sc_n c) (sc_p1 c) (sc_p2 c) (sc_k c) (sc_X c) (sc_Y c) (sc_Q1 c) (sc_Q2 c) (sc_tsc c)) (sc_scf c).
+  vcl cl rt rt (scf_modes K (sc_n c) (sc_p1 c) (sc_p2 c) (sc_k c) (sc_X c) (sc_Y c) (sc_Q1 c) (sc_Q2 c) (sc_tsc c)) (sc_scf c) &&
+  vcl cl rt rt (vtab (sc_k c) (fun i => fve_src K (sc_n c) (sc_p1 c) (sc_X c) (col K (sc_p1 c) i (sc_Q1 c)))) (sc_fvex c) &&
+  vcl cl rt rt (vtab (sc_k c) (fun i => fve_src K (sc_n c) (sc_p2 c) (sc_Y c) (col K (sc_p2 c) i (sc_Q2 c)))) (sc_fvey c).
 Definition check_scfs (rt : float) (cs : list scf_case) : list nat :=
   concat (map (fun ic => if check_scf rt (snd ic) then [] else [fst ic]) (combine (seq 0 (length cs)) cs)).
 
